@@ -395,3 +395,6 @@ if bad: reproduced(str(bad))
 not_reproduced()
 """
     return None
+
+# level text addendum (cases added after the seeded-change rounds)
+LEVEL_TEXT = LEVEL_TEXT + " Also: runs of adjacent bad channels, int16 data (the repaired channel stays within its contributors' range), scipy's tie rule for the per-batch mode."
